@@ -1,6 +1,8 @@
 #!/bin/bash
-# runs every claimed property's thorough tier once, sequentially; summary on stdout
+# runs every claimed property's thorough tier once, sequentially; summary on stdout.
+# With VP_RUN_REPO set (vp run --with-repo) the checks run against that snapshot of the repository.
 cd "$(dirname "$0")/.."
+[ -n "$VP_RUN_REPO" ] && export VERIF_REPO="$VP_RUN_REPO"
 for p in C02 C03 C04 C05 C06 C07 C08 C09 C10 C11 C12 C13 C14 C15 C16 C17 C18 C19 C20; do
   s=$(date +%s)
   ./check $p --tier thorough > /tmp/sweep-$p.txt 2>&1; rc=$?
